@@ -7,6 +7,7 @@ def bad (msg : String) : J := .obj [("bad_request", .str msg)]
 
 def eName : E → String
   | .type => "TypeError" | .value => "ValueError" | .key => "KeyError" | .index => "IndexError"
+  | .perm => "WritePermissionError"
 
 def errJ : Option E → J
   | some x => .str (eName x)
